@@ -18,10 +18,12 @@ def case_strategy(draw):
     k = draw(st.integers(1, 5))
     sizes = [draw(st.integers(1, 7)) for _ in range(k)]
     layout = draw(st.sampled_from(['base', 'base+bulk', 'assoc']))
-    identified = draw(st.booleans())
-    naming = draw(st.sampled_from(['explicit', 'pattern', 'pattern03']))
+    identified = draw(st.integers(0, 2)) > 0
+    naming = draw(st.sampled_from(['explicit', 'explicit', 'pattern', 'pattern03']))
     if naming == 'explicit':
         names = draw(st.permutations(NAMES))[:k]
+        if k >= 2 and names == sorted(names):
+            names = names[::-1]
         first = None
     else:
         first = draw(st.integers(0, 12))
@@ -49,7 +51,7 @@ def case_strategy(draw):
                 d['extras'][sc.fs_name(BULK)] = _bulk_values(draw(st.integers(0, 2**30)), sub)
             descs.append(d)
         inputs.append({'name': names[i], 'trajs': descs})
-    negative = draw(st.sampled_from([None, None, None, 'fieldset', 'identified_mix'])) if k >= 2 else None
+    negative = draw(st.sampled_from([None, None, None, None, None, 'fieldset', 'identified_mix'])) if k >= 2 else None
     return {
         'layout': layout, 'identified': identified, 'naming': naming, 'first': first, 'inputs': inputs,
         'negative': negative, 'bad_at': draw(st.integers(0, k - 1)), 'meta': draw(st.booleans()),
@@ -236,7 +238,7 @@ def run(ctx: core.Ctx):
         '(or a refused negative case); distinct = (sizes, layout, identified, naming, names).'
     )
     ctx.assumptions = ['ids unique across inputs', 'input file names are distinct and end in .nc']
-    core.run_given(ctx, case_strategy(), lambda c: body(ctx, c), ctx.n(60, 500))
+    core.run_given(ctx, case_strategy(), lambda c: body(ctx, c), ctx.n(100, 600))
 
 
 def replay(ctx: core.Ctx, case):
